@@ -255,6 +255,28 @@ def create (e : Elem) (vd : Option Str) : Except PyExc VM :=
       | .error x => .error x
       | .ok values => loop T vmap values 0 vmap {}
 
+/-- the element as the CIM repository delivers it: a qualifier may be present with a NULL value
+    (`some none`), e.g. MOF `[ValueMap, Values{"a"}]` -/
+structure ElemQ where
+  typ : String
+  values : Option (Option (List Str))
+  valuemap : Option (Option (List Str))
+
+/-- mirrors _create_for_element including its behaviour on NULL qualifier values (known finding
+    C20-KF2): `list(values_qual.value)` and `len(valuemap_list)` raise TypeError -/
+def createQ (e : ElemQ) (vd : Option Str) : Except PyExc VM :=
+  match intTypeOf e.typ with
+  | none => .error .modelError
+  | some _ =>
+    match e.values with
+    | none => .error .valueError
+    | some none => .error .typeError                          -- list(None)
+    | some (some vals) =>
+      match e.valuemap with
+      | some none => .error .typeError                        -- len(None)
+      | some (some m) => create ⟨e.typ, some vals, some m⟩ vd
+      | none => create ⟨e.typ, some vals, none⟩ vd
+
 /-- mirrors pywbem/_valuemapping.py: ValueMapping._tovalues_single (for an int argument) -/
 def tovalues (vm : VM) (v : Int) : Except PyExc Str :=
   match dictGet vm.single v with
@@ -305,6 +327,17 @@ def parseEntry (s : Str) : Option Raw :=
     match parseEnd a, parseEnd b with
     | some lo, some hi => some (.range lo hi)
     | _, _ => none
+
+/-- declarative entry grammar (DSP0004 ValueMap, integer flavour), independent of `rangeMatch`:
+      entry = ".." | integerValue | [integerValue] ".." [integerValue]      (not both ends empty) -/
+def IsEnd (a : Str) (l : Option Int) : Prop :=
+  (a = [] ∧ l = none) ∨ (∃ v, integerValueToInt a = some v ∧ l = some v)
+
+inductive IsEntry : Str → Raw → Prop
+  | unclaimed : IsEntry ['.', '.'] .unclaimed
+  | single (s : Str) (n : Int) : integerValueToInt s = some n → IsEntry s (.single n)
+  | range (a b : Str) (l h : Option Int) : IsEnd a l → IsEnd b h → (a ≠ [] ∨ b ≠ []) →
+      IsEntry (a ++ '.' :: '.' :: b) (.range l h)
 
 /-- all entries parsed, or none when one is malformed -/
 def parseAll : List Str → Option (List Raw)
